@@ -33,7 +33,7 @@ def record(name, cls=None, **fields):
     """Symbolic object with the given fields ('real'/'int'/'bool' -> fresh variable named <name>_<field>)."""
     o = Obj(cls, name)
     for k, v in fields.items():
-        if v in ('real', 'int', 'bool'):
+        if isinstance(v, str) and v in ('real', 'int', 'bool'):
             o.attrs[k] = Ctx.var('%s_%s' % (name, k), v)
         else:
             o.attrs[k] = v
